@@ -372,3 +372,316 @@ Proof. vm_compute. reflexivity. Qed.
 
 Example ex_population_hypothesis : (true && false = false) /\ (false && false = false).
 Proof. split; reflexivity. Qed.
+
+(* ================================================================================================ *)
+(** * 8. Scale statistics as a TWIN statement between the two orientations of matrix/measure.py
+
+   Supersedes [C10_scale_statistics_partial].  Model/ScaleOrient.v models the ROWS orientation
+   (one statistic per row: counts / ROW bases, `_rows_weighted_mean_stddev`, margin = row bases [:, 0],
+   count.take(order, axis=1), numeric values of dimensions[1]) and the COLUMNS orientation (one
+   statistic per column: counts / COLUMN bases, `_columns_weighted_mean_stddev`, margin = column bases
+   [0, :], take along axis 0, numeric values of dimensions[0]) separately, for the base vectors AND the
+   subtotal vectors (comparable counts: a difference is all NaN in its own direction), with the
+   `is_defined` guards.  [marginal_eq]: defined together, then base vectors and subtotal vectors agree
+   cell by cell up to Qeq; the median is EQUAL.  All sizes (empty blocks included), all values. *)
+From CC Require Import Model.ScaleOrient Proofs.ScaleCongr Proofs.TransposeScale Proofs.TransposeZscoreAll.
+
+(* rows_scale_mean of B x A = columns_scale_mean of A x B.  [cb]: per-cell column weighted bases of
+   A x B, [cbT] per-cell row weighted bases of B x A, [avals]: numeric values of A's elements *)
+Theorem C10_scale_mean nr nc rsubs csubs counts countsT dn cb cbT avals :
+  MT countsT counts -> MT cbT cb ->
+  marginal_eq (rows_scale_mean nc nr csubs rsubs countsT dn cbT avals)
+              (columns_scale_mean nr nc rsubs csubs counts dn cb avals).
+Proof. exact (rows_scale_mean_T nr nc rsubs csubs counts countsT dn cb cbT avals). Qed.
+Print Assumptions C10_scale_mean.
+
+(* rows_scale_mean_stddev ^ 2 *)
+Theorem C10_scale_stddev_sq nr nc rsubs csubs counts countsT dn cb cbT avals :
+  MT countsT counts -> MT cbT cb -> length avals = nr ->
+  marginal_eq (rows_scale_stddev_sq nc nr csubs rsubs countsT dn cbT avals)
+              (columns_scale_stddev_sq nr nc rsubs csubs counts dn cb avals).
+Proof. exact (rows_scale_stddev_sq_T nr nc rsubs csubs counts countsT dn cb cbT avals). Qed.
+Print Assumptions C10_scale_stddev_sq.
+
+(* rows_scale_mean_stderr ^ 2; [mdef]: the margin is defined (the opposing dimension is no array) *)
+Theorem C10_scale_stderr_sq nr nc rsubs csubs counts countsT dn cb cbT avals mdef :
+  MT countsT counts -> MT cbT cb -> length avals = nr ->
+  marginal_eq (rows_scale_stderr_sq nc nr csubs rsubs countsT dn cbT avals mdef)
+              (columns_scale_stderr_sq nr nc rsubs csubs counts dn cb avals mdef).
+Proof. exact (rows_scale_stderr_sq_T nr nc rsubs csubs counts countsT dn cb cbT avals mdef). Qed.
+Print Assumptions C10_scale_stderr_sq.
+
+(* rows_scale_median; [ord]: numpy's sort order of the valued elements (any list of row offsets) *)
+Theorem C10_scale_median nr nc rsubs csubs counts countsT avals :
+  MT countsT counts ->
+  forall ord, Forall (fun i => i < nr) ord ->
+  rows_scale_median nc nr csubs rsubs countsT avals ord
+  = columns_scale_median nr nc rsubs csubs counts avals ord.
+Proof. exact (rows_scale_median_T nr nc rsubs csubs counts countsT avals). Qed.
+Print Assumptions C10_scale_median.
+
+(* the other direction: columns_scale_X of B x A = rows_scale_X of A x B ([rb]: per-cell row bases of
+   A x B, [bvals]: numeric values of B's elements) *)
+Theorem C10_scale_columns_of_transpose nr nc rsubs csubs counts countsT dn rb rbT bvals mdef :
+  MT countsT counts -> MT rbT rb -> length bvals = nc ->
+  marginal_eq (rows_scale_mean nr nc rsubs csubs counts dn rb bvals)
+              (columns_scale_mean nc nr csubs rsubs countsT dn rbT bvals) /\
+  marginal_eq (rows_scale_stddev_sq nr nc rsubs csubs counts dn rb bvals)
+              (columns_scale_stddev_sq nc nr csubs rsubs countsT dn rbT bvals) /\
+  marginal_eq (rows_scale_stderr_sq nr nc rsubs csubs counts dn rb bvals mdef)
+              (columns_scale_stderr_sq nc nr csubs rsubs countsT dn rbT bvals mdef) /\
+  (forall ord, Forall (fun j => j < nc) ord ->
+     rows_scale_median nr nc rsubs csubs counts bvals ord
+     = columns_scale_median nc nr csubs rsubs countsT bvals ord).
+Proof. exact (columns_scale_T nr nc rsubs csubs counts countsT dn rb rbT bvals mdef). Qed.
+Print Assumptions C10_scale_columns_of_transpose.
+
+(* the two margin scalars of cubepart.py: rows_scale_mean_margin / rows_scale_median_margin of B x A
+   (first ROW of its per-cell column bases [rbT]) = columns_scale_*_margin of A x B (first COLUMN of its
+   per-cell row bases [rb]); None together *)
+Theorem C10_scale_margins rb rbT avals n :
+  MT rbT rb -> length (mrow rbT 0) = n -> length rb = n ->
+  oxeq (rows_scale_mean_margin rbT avals) (columns_scale_mean_margin rb avals) /\
+  rows_scale_median_margin rbT avals = columns_scale_median_margin rb avals.
+Proof.
+  exact (fun H H1 H2 => conj (rows_scale_mean_margin_T rb rbT avals n H H1 H2)
+                             (rows_scale_median_margin_T rb rbT avals n H H1 H2)).
+Qed.
+Print Assumptions C10_scale_margins.
+
+(* the matrix-level orientations are, vector by vector, the per-vector statistics of Model/Scale.v
+   (which C14 ties to the code): row i of a block in the ROWS orientation, column j in the COLUMNS one *)
+Theorem C10_scale_orientations_are_per_vector n m vals counts bases ccounts means ord :
+  (forall i, i < n -> length (mrow counts i) = m -> length (mrow bases i) = m ->
+     vnth (rows_mean_block n m vals counts bases) i = scale_mean_vec (mrow counts i) (mrow bases i) vals) /\
+  (forall i, i < n -> length (mrow ccounts i) = length vals ->
+     vnth (rows_var_block n vals ccounts means) i = sqrt_arg (scale_var (mrow ccounts i) vals (vnth means i))) /\
+  (forall i, i < n ->
+     vnth (rows_median_block n vals ord ccounts) i = scale_median_vec ord false (mrow ccounts i) vals) /\
+  (forall j, j < m -> length counts = n -> length bases = n ->
+     vnth (columns_mean_block n m vals counts bases) j = scale_mean_vec (mcol counts j) (mcol bases j) vals) /\
+  (forall j, j < m -> length ccounts = length vals ->
+     vnth (columns_var_block m vals ccounts means) j = sqrt_arg (scale_var (mcol ccounts j) vals (vnth means j))) /\
+  (forall j, j < m ->
+     vnth (columns_median_block m vals ord ccounts) j = scale_median_vec ord false (mcol ccounts j) vals).
+Proof.
+  exact (conj (rows_mean_block_vec n m vals counts bases)
+        (conj (rows_var_block_vec n vals ccounts means)
+        (conj (rows_median_block_vec n vals ord ccounts)
+        (conj (columns_mean_block_vec n m vals counts bases)
+        (conj (columns_var_block_vec m vals ccounts means)
+              (columns_median_block_vec m vals ord ccounts)))))).
+Qed.
+Print Assumptions C10_scale_orientations_are_per_vector.
+
+(* ================================================================================================ *)
+(** * 9. Residual z-scores without side conditions (supersedes the hypotheses of C10_zscores_block:
+      no non-emptiness of the base block or of the block, no finiteness of the bases) *)
+
+Theorem C10_zscore_cell_all c r k t : z_zabs c k r t =x= z_zabs c r k t.
+Proof. exact (z_zabs_sym_all c r k t). Qed.
+Print Assumptions C10_zscore_cell_all.
+
+Theorem C10_zscores_block_all n0 m0 nr nc bc bcT c cT t tT r rT k kT :
+  shape bc n0 m0 -> shape bcT m0 n0 -> MT bcT bc ->
+  shape c nr nc -> shape cT nc nr -> shape t nr nc -> shape tT nc nr ->
+  MT cT c -> MT tT t -> MT rT r -> MT kT k ->
+  forall i j, i < nr -> j < nc ->
+    mnth (zscores_block bcT cT tT kT rT) j i =x= mnth (zscores_block bc c t r k) i j.
+Proof. exact (zscores_block_T_all n0 m0 nr nc bc bcT c cT t tT r rT k kT). Qed.
+Print Assumptions C10_zscores_block_all.
+
+(* ---- examples: a 2 x 3 table, column subtotals (0 + 2) and the difference 1 - 0, values 1 and 3 on the
+   two rows: both orientations on the two responses give the same vectors; an EMPTY base block ---- *)
+Definition ex_sc : mat := [[Fin 1; Fin 2; Fin 3]; [Fin 4; Fin 5; Fin 6]].
+Definition ex_scb : mat := [[Fin 5; Fin 7; Fin 9]; [Fin 5; Fin 7; Fin 9]].
+Definition ex_scs : list subtotal := [mkSub [0; 2] []; mkSub [1] [0]].
+Definition ex_av : list xq := [Fin 1; Fin 3].
+Definition ex_red (m : marginal) : marginal :=
+  option_map (fun uv => (map xred (fst uv), map xred (snd uv))) m.
+
+Example ex_scale_hypotheses :
+  MT (mtranspose 2 3 ex_sc) ex_sc /\ MT (mtranspose 2 3 ex_scb) ex_scb /\ length ex_av = 2 /\
+  Forall (fun i => i < 2) [0; 1].
+Proof.
+  assert (S1 : shape ex_sc 2 3) by (split; [reflexivity|]; intros [|[|]] H; try reflexivity; lia).
+  assert (S2 : shape ex_scb 2 3) by (split; [reflexivity|]; intros [|[|]] H; try reflexivity; lia).
+  repeat split; [exact (mtranspose_MT 2 3 ex_sc S1)| exact (mtranspose_MT 2 3 ex_scb S2)|].
+  repeat constructor.
+Qed.
+
+Example ex_scale_twins :
+  let cT := mtranspose 2 3 ex_sc in let bT := mtranspose 2 3 ex_scb in
+  ex_red (columns_scale_mean 2 3 [] ex_scs ex_sc false ex_scb ex_av)
+    = Some ([Fin (13 # 5); Fin (17 # 7); Fin (7 # 3)], [Fin (17 # 7); NaN]) /\
+  ex_red (rows_scale_mean 3 2 ex_scs [] cT false bT ex_av)
+    = Some ([Fin (13 # 5); Fin (17 # 7); Fin (7 # 3)], [Fin (17 # 7); NaN]) /\
+  ex_red (columns_scale_stderr_sq 2 3 [] ex_scs ex_sc false ex_scb ex_av true)
+    = Some ([Fin (16 # 125); Fin (40 # 343); Fin (8 # 81)], [Fin (20 # 343); NaN]) /\
+  ex_red (rows_scale_stderr_sq 3 2 ex_scs [] cT false bT ex_av true)
+    = Some ([Fin (16 # 125); Fin (40 # 343); Fin (8 # 81)], [Fin (20 # 343); NaN]) /\
+  columns_scale_median 2 3 [] ex_scs ex_sc ex_av [0; 1] = Some ([Fin 3; Fin 3; Fin 3], [Fin 3; NaN]) /\
+  rows_scale_median 3 2 ex_scs [] cT ex_av [0; 1] = Some ([Fin 3; Fin 3; Fin 3], [Fin 3; NaN]) /\
+  rows_scale_mean 3 2 ex_scs [] cT false bT [NaN; NaN] = None /\
+  columns_scale_mean 2 3 [] ex_scs ex_sc false ex_scb [NaN; NaN] = None.
+Proof. vm_compute. repeat split; reflexivity. Qed.
+
+(* z-scores with an EMPTY base block (0 x 3) and a block holding an infinite base: the hypotheses of
+   C10_zscores_block_all are inhabited where those of C10_zscores_block are not *)
+Example ex_zscore_empty_base :
+  shape ([] : mat) 0 3 /\ shape (mtranspose 0 3 []) 3 0 /\ MT (mtranspose 0 3 []) [] /\
+  mnth (zscores_block [] [[Fin 1]] [[Fin 4]] [[Inf false]] [[Fin 2]]) 0 0 = NaN /\
+  mnth (zscores_block (mtranspose 0 3 []) [[Fin 1]] [[Fin 4]] [[Fin 2]] [[Inf false]]) 0 0 = NaN.
+Proof.
+  assert (S0 : shape ([] : mat) 0 3) by (split; [reflexivity| intros i H; lia]).
+  repeat split; try (intros i H; simpl in H; lia); try exact (mtranspose_shape 0 3 []);
+    try exact (mtranspose_MT 0 3 [] S0); try (vm_compute; reflexivity).
+  - intros [|[|[|]]] H; try reflexivity; lia.
+Qed.
+
+(* ================================================================================================ *)
+(** * 10. Labels, codes, aliases, fills, index lists, marginals, assembled measures; display orders *)
+From CC Require Base.Ident Base.SortX Spec.OrderSpec Model.Assemble Model.TransposeView Model.Collator
+     Model.SortKeys Model.OrderOrient Proofs.AssembleProofs Proofs.TransposeLabels Proofs.TransposeOrder.
+
+Section C10_view.   (* Model/Assemble.v has its own [blocks]: keep the import local *)
+Import CC.Model.Assemble CC.Model.TransposeView CC.Proofs.AssembleProofs CC.Proofs.TransposeLabels.
+
+(* the view of the exchanged raw slice ([raw_T]: attributes and marginals of the two dimensions
+   exchanged, every measure block transposed with inserted rows <-> inserted columns) under the
+   exchanged orders: shape swapped, row lists = column lists, scalars unchanged - for EVERY input *)
+Theorem C10_view_lists R ro co :
+  let V := slice_view R ro co in
+  let V' := slice_view (raw_T R) co ro in
+  v_shape V' = (snd (v_shape V), fst (v_shape V)) /\
+  v_row_labels V' = v_col_labels V /\ v_col_labels V' = v_row_labels V /\
+  v_row_marginals V' = v_col_marginals V /\ v_col_marginals V' = v_row_marginals V /\
+  v_inserted_rows V' = v_inserted_cols V /\ v_inserted_cols V' = v_inserted_rows V /\
+  v_scalars V' = v_scalars V /\
+  length (v_measures V') = length (v_measures V).
+Proof. exact (slice_view_T_lists R ro co). Qed.
+Print Assumptions C10_view_lists.
+
+(* every assembled matrix measure of B x A is the transpose of that of A x B, cell by cell *)
+Theorem C10_view_measures R ro co k i j :
+  Forall (wf_blocks (r_n R) (r_m R) (r_p R) (r_q R)) (r_measures R) ->
+  Forall (in_range (r_m R) (r_n R)) ro -> Forall (in_range (r_q R) (r_p R)) co ->
+  k < length (r_measures R) -> i < length ro -> j < length co ->
+  gnth NaN (nth k (v_measures (slice_view (raw_T R) co ro)) []) j i
+  = gnth NaN (nth k (v_measures (slice_view R ro co)) []) i j.
+Proof. exact (slice_view_T_measures R ro co k i j). Qed.
+Print Assumptions C10_view_measures.
+
+(* label / code / alias / fill lists and inserted / derived / difference position lists: the ROWS
+   lists of B x A are the COLUMNS lists of A x B and vice versa *)
+Theorem C10_dimension_lists A_dim B_dim ro co :
+  fst (slice_lists B_dim A_dim co ro) = snd (slice_lists A_dim B_dim ro co) /\
+  snd (slice_lists B_dim A_dim co ro) = fst (slice_lists A_dim B_dim ro co).
+Proof. exact (slice_lists_T A_dim B_dim ro co). Qed.
+Print Assumptions C10_dimension_lists.
+
+Definition ex_raw : raw_slice :=
+  mkRaw 2 1 3 1
+        [mkBlocks [[Fin 1; Fin 2; Fin 3]; [Fin 4; Fin 5; Fin 6]] [[Fin 10]; [Fin 11]] [[Fin 7; Fin 8; Fin 9]] [[Fin 12]]]
+        [([Fin 6; Fin 15], [Fin 24])] [([Fin 5; Fin 7; Fin 9], [Fin 21])]
+        ([101; 102], [199])%Z ([201; 202; 203], [299])%Z [Fin 45].
+Example ex_view :
+  let ro := [(-1); 1; 0]%Z in let co := [2; (-1); 0]%Z in
+  Forall (wf_blocks 2 1 3 1) (r_measures ex_raw) /\
+  Forall (in_range 1 2) ro /\ Forall (in_range 1 3) co /\
+  v_measures (slice_view ex_raw ro co) = [[[Fin 9; Fin 12; Fin 7]; [Fin 6; Fin 11; Fin 4]; [Fin 3; Fin 10; Fin 1]]] /\
+  v_measures (slice_view (raw_T ex_raw) co ro) = [[[Fin 9; Fin 6; Fin 3]; [Fin 12; Fin 11; Fin 10]; [Fin 7; Fin 4; Fin 1]]] /\
+  v_row_labels (slice_view (raw_T ex_raw) co ro) = [203; 299; 201]%Z /\
+  v_inserted_rows (slice_view (raw_T ex_raw) co ro) = [1].
+Proof.
+  cbv zeta. split; [|split; [|split]].
+  - repeat constructor.
+  - repeat constructor; unfold in_range; simpl; lia.
+  - repeat constructor; unfold in_range; simpl; lia.
+  - vm_compute. repeat split; reflexivity.
+Qed.
+End C10_view.
+
+Section C10_order.
+Import Coq.Strings.String CC.Base.Ident CC.Base.SortX CC.Spec.OrderSpec CC.Model.Collator CC.Model.SortKeys
+       CC.Model.OrderOrient CC.Proofs.TransposeOrder.
+Local Open Scope string_scope.
+
+(* anchored collators (payload / explicit order and every `type` that falls back to them): the order of
+   a dimension is the same whether it is the rows or the columns dimension - whatever the opposing
+   dimension, the measures and the labels are *)
+Theorem C10_anchored_order d o opp opp' env env' marg labels sublabels labels' sublabels' empties psub :
+  is_value_method (method_of PRows (o_type o)) = false ->
+  rows_order d o opp env marg labels sublabels empties psub
+  = columns_order d o opp' env' labels' sublabels' empties psub.
+Proof. exact (anchored_order_T d o opp opp' env env' marg labels sublabels labels' sublabels' empties psub). Qed.
+Print Assumptions C10_anchored_order.
+
+(* sort by value (label, opposing element, opposing insertion), "the key is the transposed key":
+   A x B has n base rows (the opposing dimension [opp]), m row subtotals, p base columns, q column
+   subtotals; [kw']: the measure keyword as written for B x A.  Rows-only kinds are excluded: a
+   `marginal` sort, and an opposing-insertion sort against an array dimension (derived element) *)
+Theorem C10_value_order n m p q o kw' opp env env' marg labels sublabels d empties psub :
+  List.length (p_ids opp) = n -> List.length (p_ins_ids opp) = m ->
+  key_T n m p q (matrix_measure env' kw') (matrix_measure env (o_measure o)) ->
+  method_of PRows (o_type o) <> MMarginal ->
+  (method_of PRows (o_type o) = MOppInsertion -> p_array opp = false) ->
+  rows_order d (with_measure o kw') opp env' marg labels sublabels empties psub
+  = columns_order d o opp env labels sublabels empties psub.
+Proof. exact (fun Hn Hm Hk => value_order_T n m p q o kw' opp env env' marg labels sublabels Hn Hm Hk d empties psub). Qed.
+Print Assumptions C10_value_order.
+
+(* the key IS the transposed key for every measure keyword but `col_index`, with the direction of the
+   keyword mirrored, when the measures object of B x A is property-wise the transposed twin *)
+Theorem C10_measure_key_mirror n m p q env env' kw :
+  (forall prop, prop <> "column_index" -> env' prop = env_T n m p q env prop) ->
+  (forall prop b, env prop = Some b -> mb_wf n m p q b) ->
+  kw <> Some "col_index" ->
+  key_T n m p q (matrix_measure env' (option_map mirror_kw kw)) (matrix_measure env kw).
+Proof. exact (fun He Hw => matrix_measure_mirror n m p q env env' He Hw kw). Qed.
+Print Assumptions C10_measure_key_mirror.
+
+(* a slice: the ROW order of B x A ([dims_T]: dimensions, order requests with the measure keyword
+   mirrored, empty-vector lists, labels exchanged; subtotal pruning read from the opposing side as
+   _RowOrderHelper / _ColumnOrderHelper do) is the COLUMN order of A x B *)
+Theorem C10_slice_order sd env env' marg p q :
+  let n := List.length (d_ids (sd_rows sd)) in
+  let m := List.length (subtotals (sd_rows sd)) in
+  let t := o_type (sd_col_req sd) in
+  method_of PRows t <> MMarginal ->
+  (method_of PRows t = MOppInsertion -> d_array (sd_rows sd) = false) ->
+  o_measure (sd_col_req sd) <> Some "col_index" ->
+  (forall prop, prop <> "column_index" -> env' prop = env_T n m p q env prop) ->
+  (forall prop b, env prop = Some b -> mb_wf n m p q b) ->
+  slice_row_order (dims_T sd) env' marg = slice_column_order sd env.
+Proof. exact (slice_order_T sd env env' marg p q). Qed.
+Print Assumptions C10_slice_order.
+
+(* A (ids 1 2) x B (ids 1 2 3); the columns are sorted ascending by `col_percent` of row id 2; on B x A
+   the rows are sorted by `row_percent` of column id 2: the same signed order [2; 1; 0] *)
+Definition ex_el (z : Z) : elem := mkElem (IInt z) false DNone.
+Definition ex_dA : dimension := mkDim [ex_el 1; ex_el 2] false [] None [] false.
+Definition ex_dB : dimension := mkDim [ex_el 1; ex_el 2; ex_el 3] false [] None [] false.
+Definition ex_reqB : order_req :=
+  mkOrd (Some "opposing_element") (Some "col_percent") None (Some (IInt 2)) None (mkSort false [] []) [].
+Definition ex_reqA : order_req := mkOrd None None None None None (mkSort false [] []) [].
+Definition ex_sd : slice_dims :=
+  mkSliceDims ex_dA ex_dB ex_reqA ex_reqB [] [] (["a1"; "a2"], []) (["b1"; "b2"; "b3"], []).
+Definition ex_colp : mblocks :=
+  SortKeys.mkBlocks [[Fin (1 # 5); Fin (2 # 7); Fin (1 # 3)]; [Fin (4 # 5); Fin (5 # 7); Fin (2 # 3)]] [[]; []] [] [].
+Definition ex_env : menv := fun p => if String.eqb p "column_proportions" then Some ex_colp else None.
+
+Example ex_slice_order :
+  method_of PRows (o_type (sd_col_req ex_sd)) = MOppElement /\
+  o_measure (sd_col_req ex_sd) <> Some "col_index" /\
+  (forall prop b, ex_env prop = Some b -> mb_wf 2 0 3 0 b) /\
+  o_measure (sd_row_req (dims_T ex_sd)) = Some "row_percent" /\
+  slice_column_order ex_sd ex_env = Ok [2; 1; 0]%Z /\
+  slice_row_order (dims_T ex_sd) (env_T 2 0 3 0 ex_env) (fun _ => None) = Ok [2; 1; 0]%Z.
+Proof.
+  split; [reflexivity|]. split; [discriminate|]. split.
+  - intros prop b H. unfold ex_env in H. destruct (String.eqb prop "column_proportions"); [|discriminate].
+    inversion H; subst b. unfold mb_wf, mb_rect. simpl. repeat split; repeat constructor.
+  - split; [reflexivity|]. split; vm_compute; reflexivity.
+Qed.
+End C10_order.
